@@ -11,6 +11,9 @@
   Props/C02FinalScroll.lean (gap (d): `ScrollDrivesSv` of decoded taiko / mania maps, `decoded_scrollDrivesSv`; false for out-of-order timing lines).
   Props/C02IeeeTiming.lean: the timing clause on IEEE doubles — the drift of a stored slider velocity / scroll speed over
   decode → encode → decode (`sv_roundtrip_err_float`, `sv_roundtrip_not_exact_float`).
+  Props/C02Capstone.lean — the CAPSTONE: `ExactLaws`, `DecodedDomain`, `PreservedEq`, `roundtrip_decoded_capstone` (one theorem about
+  decoded maps, every exclusion a named field), `roundtrip_statement_full`; Props/C02CapstoneToy.lean / C02CapstoneToyRt.lean: non-vacuity on a decoded file; Props/C02CapstoneFalse.lean:
+  `roundtrip_statement_full_false` (the statement without the domain is refuted on the F16 file).
   All in namespace `Rosu.C02`.
 -/
 import RosuModel.Props.C02Slider
@@ -32,3 +35,7 @@ import RosuModel.Props.C02FinalScroll
 import RosuModel.Props.C02FinalScrollToy
 import RosuModel.Props.C02FinalScrollExact
 import RosuModel.Props.C02IeeeTiming
+import RosuModel.Props.C02Capstone
+import RosuModel.Props.C02CapstoneToy
+import RosuModel.Props.C02CapstoneToyRt
+import RosuModel.Props.C02CapstoneFalse
